@@ -384,7 +384,7 @@ fn out_precision_ok(a: &ArrayRef) -> bool {
 
 /// The strict/safe duality checked directly on the implementation (any type pair):
 /// strict fails ⇔ safe nulls some valid input row; when strict succeeds both agree.
-fn duality(safe: &Result<ArrayRef, String>, strict: &Result<ArrayRef, String>, valid_in: &[bool], out: &mut Out) {
+fn duality(safe: &Result<ArrayRef, String>, strict: &Result<ArrayRef, String>, valid_in: &[bool], from: &DataType, to: &DataType, out: &mut Out) {
     match (safe, strict) {
         (Ok(sa), Ok(st)) => {
             let (a, b) = (show(sa.as_ref()), show(st.as_ref()));
@@ -409,6 +409,10 @@ fn duality(safe: &Result<ArrayRef, String>, strict: &Result<ArrayRef, String>, v
         (Err(e1), Err(_)) => {
             // safe mode must not fail on row values: whole-cast (type level) errors only
             out.tags.push(format!("res:both-err:{}", e1.trim_start_matches("ERR:")));
+            if do_cast(&new_null_array(from, valid_in.len()), to, true).is_ok() && valid_in.iter().any(|b| *b) {
+                out.oracle.push(format!("duality: safe mode failed ({}) because of row values (the same cast of an all-null array succeeds)", e1));
+                out.tags.push("kf:safe-mode-row-error".into());
+            }
         }
     }
     if let Ok(sa) = safe {
@@ -461,7 +465,13 @@ fn op_cast(var: usize, src: &str, dst: &str, safe: bool, vals: &str) -> Out {
     if !dom {
         out.tags.push("ood".into());
     }
-    duality(&rs, &rt, &valid_in, &mut out);
+    if let (Some((_, p1, s1)), Some((_, _, s2))) = (dec_params(&from), dec_params(&to)) {
+        // `(input_precision as i8) + delta_scale` in make_upscaler leaves the i8 range
+        if s2 >= s1 && p1 as i32 + (s2 as i32 - s1 as i32) > 127 {
+            out.tags.push("kf:upscale-i8-wrap".into());
+        }
+    }
+    duality(&rs, &rt, &valid_in, &from, &to, &mut out);
     checks_on_output(&rs, &to, toks.len(), dom, "safe", &mut out);
     checks_on_output(&rt, &to, toks.len(), dom, "strict", &mut out);
     if can_cast_types(&from, &to) {
@@ -1230,7 +1240,7 @@ fn gen_rt(rng: &mut Rng) -> (String, String) {
             let v: Vec<String> = (0..n)
                 .map(|_| {
                     if s == "date32" {
-                        if text { band(rng, -719_162, 2_932_896).to_string() } else { band(rng, i32::MIN as i128, i32::MAX as i128).to_string() }
+                        if text { band(rng, -719_162, 2_932_896).to_string() } else if m.starts_with("ts:") { band(rng, -95_000_000, 95_000_000).to_string() } else { band(rng, i32::MIN as i128, i32::MAX as i128).to_string() }
                     } else if text {
                         // years 0001..9999 in the source unit
                         let mult: i128 = [1, 1000, 1_000_000, 1_000_000_000][unit_rank(&s).unwrap() as usize];
@@ -1329,7 +1339,7 @@ fn type_grid() -> Vec<DataType> {
         g.push(Duration(u));
     }
     g.push(Timestamp(TimeUnit::Millisecond, Some("+01:00".into())));
-    g.push(Timestamp(TimeUnit::Nanosecond, Some("UTC".into())));
+    g.push(Timestamp(TimeUnit::Nanosecond, Some("+00:00".into())));
     g.extend_from_slice(&[
         List(item(Int32)),
         LargeList(item(Utf8)),
@@ -1428,7 +1438,7 @@ fn gen_dtype(rng: &mut Rng, depth: usize, class: &mut &'static str) -> DataType 
             21 => {
                 let tz = match rng.below(6) {
                     0 | 1 | 2 => None,
-                    3 => Some("UTC".to_string()),
+                    3 => Some("+00:00".to_string()),
                     4 => Some(rng.pick(&["+01:00", "-08:30", "Europe/Paris", "America/Argentina/Buenos_Aires"]).to_string()),
                     _ => Some(name(rng, class, false)),
                 };
@@ -1571,7 +1581,7 @@ fn main() {
         // the can_cast grid: exhaustive over ordered pairs in the thorough tier, sampled otherwise
         let n_grid = if thorough { grid.len() * grid.len() } else { 1200 };
         let mut idx = 0usize;
-        for _ in 0..n_grid.min(if args.cases.is_some() { n / 10 } else { usize::MAX }) {
+        for _ in 0..n_grid.min(if args.cases.is_some() { n } else { usize::MAX }) {
             let (line, tags) = gen_cancast(&mut rng, &grid, &mut idx, thorough);
             emit(&mut sink, line, tags, None);
         }
